@@ -24,12 +24,14 @@ def driver_ok(ctx):
 def search(ctx):
     """A theorem stopped checking against the regenerated lock-scope facts, or
     the model and the implementation disagree: hunt for a schedule on which the
-    property fails on the real code (the thorough case set; the property
-    oracle needs no model)."""
+    property fails on the real code: the scheduled case set with another seed
+    (the property oracle needs no model) and 400000 free-running races, which
+    can hit code that touches the buffer outside every guard without passing a
+    schedule point."""
     if any(not common.match_known(common.load_known(ctx.pid), v) for v in ctx.impl_violations):
         return
     if ctx.build_harness("c16"):
-        ctx.harness("c16", harness_args(ctx, ctx.seed + 7919, "thorough", model=driver_ok(ctx)),
+        ctx.harness("c16", harness_args(ctx, ctx.seed + 7919, "quick", model=driver_ok(ctx)) + ["--stress", "400000"],
                     timeout=3000, name="search:c16")
 
 
